@@ -29,10 +29,10 @@ from collections import defaultdict, namedtuple
 from .facts import short, clean_ty, ty_head
 from .locks import Held
 
-QS = 'desync::scheduler::queue_state::QueueState'
-JQC = 'desync::scheduler::job_queue::JobQueueCore'
-ACTIVE_QUEUE = 'desync::scheduler::active_queue::ActiveQueue'
-SCHEDULED_JOB = 'desync::scheduler::job::ScheduledJob'
+QS = 'desync::QueueState'
+JQC = 'desync::JobQueueCore'
+ACTIVE_QUEUE = 'desync::ActiveQueue'
+SCHEDULED_JOB = 'desync::ScheduledJob'
 
 EXPECTED_VARIANTS = ['Idle', 'Pending', 'Running', 'WaitingForWake', 'WaitingForUnpark', 'WaitingForPoll', 'AwokenWhileRunning', 'Panicked']
 
@@ -193,7 +193,7 @@ class Proto:
             self.problems.append('QueueState variants changed: %s (roles table knows %s)' % (self.variants, EXPECTED_VARIANTS))
         self.ALL = frozenset(self.variants)
         self.bind = Bindings(facts)
-        isr = facts.fn('desync::scheduler::queue_state::QueueState::is_running')
+        isr = facts.fn('desync::QueueState::is_running')
         self.running_set = None
         if isr:
             r = eval_switch_fn(isr, facts, QS)
@@ -303,7 +303,7 @@ class Proto:
         """Execution sites: where a queued job (or the sync caller's closure) actually runs."""
         if t.get('trait') == SCHEDULED_JOB and t.get('method') == 'run' and t.get('rk') == 'virtual':
             # delegation inside an impl of ScheduledJob::run is not a site of its own
-            if fn.name.endswith('as %s>::run' % SCHEDULED_JOB):
+            if fn.name in self.facts.trait_impl_methods(SCHEDULED_JOB, 'run'):
                 return None
             return 'job.run'
         # direct call of a user closure in a scheduler function that owns a queue argument
@@ -1091,7 +1091,7 @@ class Proto:
             e = fn.expr_of_operand(args[0])
             if self.is_queue_place_expr(e):
                 return done(st._replace(len0='N', pushed=1 if name.endswith('push_back') else st.pushed), None)
-            if e[0] == 'field' and e[2] == 'schedule' or 'VecDeque<alloc::sync::Arc<desync::scheduler::job_queue::JobQueue>>' in clean_ty(args[0].get('pl', {}).get('ty', '')):
+            if e[0] == 'field' and e[2] == 'schedule' or 'VecDeque<alloc::sync::Arc<desync::JobQueue>>' in clean_ty(args[0].get('pl', {}).get('ty', '')):
                 if st.sched == 1 and name.endswith('push_back'):
                     return done(st._replace(sched=2), None)
             return done(st, None)
